@@ -156,4 +156,56 @@ SEEDS = [
             return index;
         }
         index""", note='root gate removes only one expired root, then returns the next root untested'),
+
+    dict(id='D5-export-capacity-shift', props=['C19'], file='src/key/array.rs',
+         old="Vec::with_capacity(self.store.buffer.len() - self.store.unused.len())", new="Vec::with_capacity(8 << height)",
+         note='result capacity exponential in the black height'),
+    dict(id='A1-export-capacity-peak', props=['C19'], file='src/key/array.rs',
+         old="Vec::with_capacity(self.store.buffer.len() - self.store.unused.len())", new="Vec::with_capacity(self.store.buffer.len())",
+         note='result capacity proportional to the peak, not the current population'),
+    dict(id='A2-export-capacity-square', props=['C19'], file='src/key/array.rs',
+         old="Vec::with_capacity(self.store.buffer.len() - self.store.unused.len())", new="Vec::with_capacity((self.store.buffer.len() - self.store.unused.len()) * height)",
+         note='n * height'),
+
+    dict(id='R1-set-clear-keeps-root', props=['C12'], file='src/set/tree.rs',
+         old="""        self.store.put_back(self.root);
+        self.root = EMPTY_REF;
+
+        let mut n = 1;""",
+         new="""        self.store.put_back(self.root);
+
+        let mut n = 1;""", note='clear releases slots but keeps root'),
+    dict(id='R2-seg-clear-skips-first', props=['C12'], file='src/seg/tree.rs',
+         old="for chunk in self.chunks.iter_mut() {", new="for chunk in self.chunks.iter_mut().skip(1) {", note='root bucket list survives clear'),
+    dict(id='R3-maplist-clear-noop', props=['C12'], file='src/map/list.rs',
+         old="""    fn clear(&mut self) {
+        self.buffer.clear();""",
+         new="""    fn clear(&mut self) {
+        if self.buffer.len() > 64 { self.buffer.clear(); }""", note='small lists are not cleared'),
+    dict(id='R4-chunk-clear-noop', props=['C12'], file='src/seg/chunk.rs',
+         old="""        // self.min_exp = E::max_expiration();
+        self.buffer.clear();""",
+         new="""        // self.min_exp = E::max_expiration();
+        self.buffer.truncate(1);""", note='bucket clear leaves one copy'),
+    dict(id='I1-map-insert-swaps-payload', props=['C17'], file='src/map/tree.rs',
+         old="""            // Case 5a: Uncle is black and node is left->left "outer child" of its grandparent
+            self.rotate_right(g_index);""",
+         new="""            // Case 5a: Uncle is black and node is left->left "outer child" of its grandparent
+            let tmp = self.node(g_index).entity.clone();
+            self.node_mut(g_index).entity = self.node(p_index).entity.clone();
+            self.node_mut(p_index).entity = tmp;
+            self.rotate_right(g_index);""", note='insert repair exchanges payloads between slots'),
+    dict(id='I2-set-insert-moves-root', props=['C17'], file='src/set/tree.rs',
+         old="""    fn insert_as_left(&mut self, value: V, p_index: u32) {
+        let new_index = self.insert_new(value, p_index);
+""",
+         new="""    fn insert_as_left(&mut self, value: V, p_index: u32) {
+        let new_index = self.insert_new(value, p_index);
+        if p_index == self.root {
+            let v = self.node(new_index).value.clone();
+            let r = self.node(p_index).value.clone();
+            self.node_mut(new_index).value = r;
+            self.node_mut(p_index).value = v;
+        }
+""", note='payload swapped with the root on a special path'),
 ]
